@@ -85,7 +85,7 @@ pub mod rust_log_ref_finder
                     // Macro name
                     let inner_rule = inner_rules.next();
 
-                    let macro_name: &str = match inner_rule
+                    let (macro_name, macro_name_start): (&str, usize) = match inner_rule
                     {
                         None => continue,
                         Some(rule) =>
@@ -104,7 +104,7 @@ pub mod rust_log_ref_finder
                                 continue;
                             }
 
-                            rule.as_str()
+                            (rule.as_str(), rule.as_span().start())
                         },
                     };
 
@@ -213,7 +213,7 @@ pub mod rust_log_ref_finder
                     if config.rust.structured
                         && !check_for_no_kvp_directive(
                             code,
-                            rule_ref_container_span.start(),
+                            macro_name_start,
                             &RUST_COMMENT_PATTERN,
                         )
                     {
